@@ -48,6 +48,10 @@ def materialise(t):
         v = df["alter"].astype(float).to_numpy().copy()
         v[-1] += 0.5
         df["alter"] = v
+    elif dt.get("alter") == "int_frac_small":      # a value that is almost, but not exactly, an integer
+        v = df["alter"].astype(float).to_numpy().copy()
+        v[0] += 1e-4
+        df["alter"] = v
     elif dt.get("alter") == "object":
         df["alter"] = df["alter"].astype(object)
     if dt.get("kind") == "bool_as_int01":
